@@ -89,15 +89,20 @@ PROPS.update({
     "C08": _e2("TestVerifC08", "Generated payloads relative to a tiny SO_SNDBUF, writer API mixes, peer drain scripts, write timeouts fired as scheduling choices, closes and a concurrent Flush, over generated schedules; 'nil => kernel has every submitted byte' is checked with SIOCINQ on the peer end at the moment Flush returns.",
                "scenario = 1-3 flushes (Malloc+Flush / Write / WriteBinary nocopy / mixed) of 1..12xSO_SNDBUF bytes x {no timeout, write timeout, deadline} x peer drain script x peer close x user close x concurrent Flush x 0-2 timer firings; non-trivial = the flusher actually parked waiting for the poller; distinct = scenario + number of steps",
                quick=1500, thorough=30000),
+    "C10": _e2("TestVerifC10", "Generated open/close/reopen histories with stale calls on the closed connection and generated schedules (including close/reopen between the poller's fetch and dispatch); judged only on the bystander: its data, its callbacks, its liveness.",
+               "scenario = A (handler or not, 0-3 peer writes, closed by user or peer) x B opened after A's teardown (poller kicked so that the slot is spliced back: B re-uses A's slot and descriptor number) or before x 1-5 stale calls on A drawn from 18 Connection/Reader/Writer methods; non-trivial = B re-used A's slot and at least one stale call ran after B was open; distinct = scenario + event sequence"),
+    "C12": _e2("TestVerifC12", "The space close mode x buffered input x pending output x callbacks x method x repeat (3648 points) is sampled with generated schedules in the quick tier and enumerated completely in the thorough tier; 'blocks' is exact (the caller is parked at quiescence), panics are recovered and reported.",
+               "space = {user, peer, peer-then-user, detach} x {0, 5 bytes buffered} x {no, malloc'd unflushed output} x {no callbacks, OnRequest, OnConnect+OnRequest} x 38 Connection/Reader/Writer calls x {once, twice}; every point is non-trivial (the method runs after the close reached quiescence); distinct = point of the space",
+               quick=600, thorough=4000),
 })
 
 ENGINES = [
     {"name": "E1 bufmachine", "path": "harness/netpoll/e1_*_test.go", "serves_properties": ["C01", "C02", "C03", "C16"], "kind_free_text": "rapid state machine over LinkBuffer against a FIFO byte-queue model with a recording pool allocator"},
-    {"name": "E2 simworld", "path": "harness/netpoll/e2_*_test.go + harness/verifsched + tools/vinstr", "serves_properties": ["C04", "C05", "C06", "C07", "C08", "C09", "C10", "C11", "C12", "C13", "C17", "C18"], "kind_free_text": "generated schedules: schedule points injected at build time, cooperative scheduler around the real poller loop on socketpairs"},
+    {"name": "E2 simworld", "path": "harness/netpoll/e2_*_test.go + harness/verifsched + tools/vinstr", "serves_properties": ["C04", "C05", "C06", "C07", "C08", "C09", "C10", "C11", "C13", "C17", "C18"], "kind_free_text": "generated schedules: schedule points injected at build time, cooperative scheduler around the real poller loop on socketpairs"},
 ]
 
 # properties not claimed yet (kept current while the framework is being built)
 NOT_APPLICABLE = [
     {"property_id": p, "reason": "check under construction in this session; not claimed until it has been run clean on the unchanged tree"}
-    for p in ["C04", "C10", "C11", "C12", "C13", "C14", "C15", "C16", "C17", "C18", "C19"]
+    for p in ["C04", "C11", "C13", "C14", "C15", "C16", "C17", "C18", "C19"]
 ]
